@@ -574,4 +574,38 @@ func runC05(c *Ctx) {
 			"Pause synchronises with handler execution",
 			"Pause can return while a handler is executing: the run loop executes handlers holding only singleRunLock, Pause acquires only pauseMu (released on return) and does not wait for an acknowledgement from the loop; schedule: goroutine A is inside dispatchNext→Handle, goroutine B calls Pause, takes the free pauseMu, stores the flag and returns while A's handler still runs")
 	}
+
+	// who may write the pause flag: only Pause and Continue (and construction)
+	if pausedF != nil {
+		fns := p.SrcFuncs(func(pp string) bool { return pp == pkgPath("timing") })
+		n := 0
+		for _, fn := range fns {
+			for _, b := range fn.Blocks {
+				for _, in := range b.Instrs {
+					writes := false
+					switch x := in.(type) {
+					case *ssa.Store:
+						if fo := FieldOf(x.Addr); fo != nil && sameObj(fo, pausedF) {
+							writes = true
+						}
+					case ssa.CallInstruction:
+						nm, pk := calleeNamePkg(x)
+						if pk == "sync/atomic" && (strings.HasPrefix(nm, "Store") || strings.HasPrefix(nm, "Swap") || strings.HasPrefix(nm, "CompareAndSwap") || strings.HasPrefix(nm, "Add")) && len(x.Common().Args) > 0 {
+							if fo := FieldOf(x.Common().Args[0]); fo != nil && sameObj(fo, pausedF) {
+								writes = true
+							}
+						}
+					}
+					if !writes {
+						continue
+					}
+					n++
+					owner := fn.Name() == "Pause" || fn.Name() == "Continue" || strings.HasPrefix(fn.Name(), "NewSerialEngine")
+					c.Check(owner, "pause-flag-ownership", SSAFuncKey(fn)+"@paused", in.Pos(), "the pause flag is written only by Pause and Continue",
+						SSAFuncKey(fn)+" writes the engine's pause flag: a Pause requested before or between runs is then silently discarded, so handlers start although Continue was never called")
+				}
+			}
+		}
+		c.Check(n >= 2, "pause-flag-ownership", "instances", 0, "writes of the pause flag found", "fewer than two writes of the pause flag were found")
+	}
 }
